@@ -271,6 +271,11 @@ def instantiate(e, table):
             term = instantiate(inner.xreplace({var: sp.Integer(v)}), table)
             acc = acc * term if isinstance(e, sp.Product) else acc + term
         return acc
+    if e.func == symx.ITER:
+        v = symx.expand_iter(e, lambda x: instantiate(x, table))
+        if v is None:
+            raise AnalysisError('loop bounds not determined by the multiset: %s..%s' % (e.args[4], e.args[5]))
+        return v
     if e.args:
         new = [instantiate(a, table) for a in e.args]
         if any(x is not y for x, y in zip(new, e.args)):
